@@ -1047,6 +1047,13 @@ class Exec(Interp):
             self.store(s, fr, t['dest'], val)
             return (s, t['target'])
 
+        if c.get('def') is None and c.get('fn_op') is not None:
+            # call through a function pointer: the callee is whatever function values reach the operand
+            fnv = self.operand(st, fr, c['fn_op'])
+            if fnv[0] in ('fn', 'fnset', 'closure'):
+                res_ = self.call_value(st, fnv, args, chain, depth)
+                if res_ is not None:
+                    return self.merge_outcomes(res_, fr, t)
         res = c.get('res')
         ov = getattr(self, 'callee_overrides', None)
         if ov and c.get('def') in ov:
@@ -1097,10 +1104,27 @@ class Exec(Interp):
 
     def call_value(self, st, fnv, args, chain, depth):
         """Call a function item or closure value with already evaluated arguments; None if its body is not available."""
+        if fnv[0] == 'fnset':
+            outs = []
+            for d_ in sorted(fnv[1]):
+                res_ = self.call_value(st.copy(), ('fn', d_), args, chain, depth)
+                if res_ is None:
+                    return None
+                outs.extend(res_)
+            return outs
         if fnv[0] == 'fn':
             cb = self.body(fnv[1]) or self.body('G:' + fnv[1])
             if cb is not None and cb.arg_count == len(args) and chain.count(cb.id) < 3:
                 return self.run_fn(cb, st, args, chain + [cb.id], depth + 1)
+            # a tuple-variant / tuple-struct constructor used as a function: builds the value, cannot fail
+            if '::' in fnv[1]:
+                ap, vn = fnv[1].rsplit('::', 1)
+                adt = self.f.adts.get(ap)
+                if adt is not None:
+                    for v_ in adt['variants']:
+                        if v_['name'] == vn and len(v_['fields']) == len(args):
+                            fl = {fd['name']: self.alloc(st, a) for fd, a in zip(v_['fields'], args)}
+                            return [(st, ('adt', ap, frozenset([vn]), {vn: fl}))]
             return None
         if fnv[0] == 'closure':
             cb = self.body(fnv[1])
@@ -1583,11 +1607,12 @@ class Exec(Interp):
             ty = c['args'][0] if c.get('args') else None
             ok = self.top_of(st, tyj_of_str(ty)) if ty else ('top', '?')
             return [(st, self.mk_result(st, ok, ('top', 'err')))]
-        if name == 'eq' and 'PartialEq' in d and A and len(A) == 2:
+        if name in ('eq', 'ne') and 'PartialEq' in d and A and len(A) == 2:
             x, y = dv(A[0]), dv(A[1])
             if x[0] == 'int' and y[0] == 'int':
-                val = self.eval_cmp(st, 'Eq', x[2], y[2])
-                return [(st, self.mk_bool(st, val, ('cmp', 'Eq', x[2], y[2])))]
+                op_ = 'Eq' if name == 'eq' else 'Ne'
+                val = self.eval_cmp(st, op_, x[2], y[2])
+                return [(st, self.mk_bool(st, val, ('cmp', op_, x[2], y[2])))]
             return [(st, self.mk_bool(st))]
         if name in ('to_string', 'to_ascii_lowercase', 'to_lowercase', 'trim', 'to_owned', 'as_str', 'format', 'from_str', 'new_const', 'new_v1',
                     'new', 'custom') and (d.startswith('std::fmt::') or 'ToString' in d or d.startswith('core::str::') or d.startswith('std::string::')
